@@ -140,6 +140,12 @@ def c07(case, diff, o, v):
         # KF-13 again: the nested run is the legacy analyzer, whose CAST(... AS type(n)) handling depends on letter case (KF-30b)
         if _feat(case)["select_has_subquery"] and _re.search(r"(?i)\bcast\s*\(", case.get("sql", "")) and _re.search(r"(?i)\bas\s+[a-z_]+\s*\(", case.get("sql", "")):
             return "KF-13"
+    if case.get("dialect") == "non-validating" and diff == ["column_pairs"] and "*" in case.get("sql", "") and _feat(case)["where_has_subquery"]:
+        # KF-38: which node's star is expanded is picked by set iteration; the anonymous sub-query's hash follows its text, so any rewrite flips the coin
+        def subq_star(pairs):
+            return {c for p in pairs for c in p if c.endswith(".*") and c.count(".") == 1}
+        if subq_star(o.get("column_pairs", [])) != subq_star(v.get("column_pairs", [])):
+            return "KF-38"
     if case.get("dialect") == "non-validating":
         # the legacy sqlparse analyzer is layout sensitive in three separate ways
         # KF-30a: anything but one blank between UNION and ALL (also a comment)
